@@ -100,7 +100,7 @@ def sim_case(case, res, body, session_kw=None):
     if died != "hang":
         key = crash_key(rc, err)
         if key is not None:
-            S.viol.append(("crash/" + key, err[-3000:]))
+            S.viol.append(("crash/" + key, err[:3500]))
         elif died == "died":
             S.viol.append(("crash/daemon-vanished", err[-1000:]))
     res.viol = S.viol
